@@ -40,7 +40,7 @@ STYLES = ['google', 'freeform', 'auto']
 def required_cells(tier):
     return ['style:google', 'style:freeform', 'style:auto', 'feature:async', 'feature:nested-func',
             'feature:class-in-func', 'feature:method:setter', 'feature:method:deleter', 'feature:method:nestedcls',
-            'feature:top:main', 'feature:module-docstring', 'feature:top:adeco', 'feature:top:ctxmgr', 'feature:top:subclass', 'feature:top:handler', 'feature:top:matcharm', 'feature:top:tryelse', 'feature:top:forbody', 'feature:method:setter_stacked', 'feature:method:getter_again', 'feature:top:notmain', 'feature:main-guard-else', 'feature:google-header-on-the-opening-line', 'feature:method:ctxmethod', 'tree:missing-init', 'tree:ok', 'tree:holds-an-unparsable-module', 'history:file-edited-then-collected-again', 'tree:by-name:not-imported', 'tree:by-name:imported',
+            'feature:top:main', 'feature:module-docstring', 'feature:top:adeco', 'feature:top:ctxmgr', 'feature:top:subclass', 'feature:top:handler', 'feature:top:matcharm', 'feature:top:tryelse', 'feature:top:forbody', 'feature:method:setter_stacked', 'feature:method:getter_again', 'feature:top:notmain', 'feature:main-guard-else', 'feature:google-header-on-the-opening-line', 'feature:method:ctxmethod', 'tree:missing-init', 'tree:ok', 'tree:holds-an-unparsable-module', 'history:file-edited-then-collected-again', 'history:repaired-after-a-syntax-error', 'tree:by-name:not-imported', 'tree:by-name:imported',
             'cli-list', 'calldefs']
 
 
@@ -143,6 +143,60 @@ def check_module(ctx, idx, seed):
                 ctx.cell('history:file-edited-then-collected-again')
             with open(path, 'w') as f:
                 f.write(spec.src)
+        if idx % 3 == 1:
+            # history: the file does not parse when it is first collected (a warning, nothing collected), is repaired,
+            # and is collected again in the same process, through both entry points
+            from xdoctest import runner
+            with open(path, 'w') as f:
+                f.write(spec.src + '\ndef broken(:\n')
+            case3 = dict(case, kind='module-repaired-after-a-syntax-error')
+            ok3 = True
+            try:
+                exs, wl = collect(path, 'google')
+                with contextlib.redirect_stdout(io.StringIO()), warnings.catch_warnings():
+                    warnings.simplefilter('ignore')
+                    runner.doctest_module(path, 'list', argv=[''], verbose=1, style='google')
+            except SyntaxError:
+                exs = []
+            except Exception as ex:
+                ctx.violation('collect-raised', 'collecting a module that does not parse raised %r' % (ex,), case3)
+                ok3 = False
+                exs = []
+            if exs:
+                ctx.violation('inventory', 'a module that does not parse yields doctests %r' % ([e.callname for e in exs],), case3)
+                ok3 = False
+            with open(path, 'w') as f:
+                f.write(spec.src)
+            for style in STYLES:
+                ctx.evaluation()
+                try:
+                    exs, wl = collect(path, style)
+                except Exception as ex:
+                    ctx.violation('collect-raised', 'parse_doctestables raised %r on the repaired file' % (ex,), case3)
+                    ok3 = False
+                    continue
+                ctx.event('collections_observed')
+                if not compare(ctx, spec, style, exs, case3, what='parse_doctestables after the file was repaired (it did not '
+                               'parse when it was collected earlier in the same process)'):
+                    ok3 = False
+            # ... and through the runner's own entry point (its defaults are shared by every call in the process)
+            buf = io.StringIO()
+            try:
+                with contextlib.redirect_stdout(buf), warnings.catch_warnings():
+                    warnings.simplefilter('ignore')
+                    runner.doctest_module(path, 'list', argv=[''], verbose=1, style='google')
+                listed = sorted(ln.split()[-1] for ln in buf.getvalue().splitlines()
+                                if ln.strip().startswith('python -m xdoctest ') and ':' in ln.split()[-1])
+                exp_l = sorted('%s:%d' % k for k in gm.expected_collection(spec, 'google'))
+                if listed != exp_l:
+                    ctx.violation('inventory', "doctest_module(path, 'list') after the repair lists %r, the inventory says %r" % (
+                        listed, exp_l), case3)
+                    ok3 = False
+            except Exception as ex:
+                ctx.violation('collect-raised', "doctest_module(path, 'list') on the repaired file raised %r" % (ex,), case3)
+                ok3 = False
+            if ok3:
+                ctx.cell('history:repaired-after-a-syntax-error')
         if ctx.shard == 0:
             ctx.sample({'module_source': spec.src[:1500], 'inventory': {k: v.markers for k, v in spec.inventory.items()},
                         'must_not_collect': spec.forbidden}, limit=1)
